@@ -5,6 +5,9 @@
 package sortition
 
 import (
+	"bytes"
+	"crypto/elliptic"
+	"crypto/sha256"
 	"encoding/hex"
 	"fmt"
 	"math/big"
@@ -35,22 +38,27 @@ type Base struct {
 
 // Item is one input line: a point ("P"), a credential case ("C") or a request for random cases ("R").
 type Item struct {
-	Kind   string  `json:"kind"`
-	Tag    string  `json:"tag"`
-	H      string  `json:"h"`
-	W      int64   `json:"w"`
-	A      int64   `json:"a"`
-	B      int64   `json:"b"`
-	Ej     int64   `json:"ej"`
-	Fn     string  `json:"fn"`
-	Base   Base    `json:"base"`
-	Pert   string  `json:"pert"`
-	Expect string  `json:"expect"`
-	N      int     `json:"n"`
-	MaxW   int64   `json:"maxw"`
-	Ops    []SeqOp `json:"ops"`
-	Hid    int     `json:"hid"`
-	J      int64   `json:"j"`
+	Kind   string    `json:"kind"`
+	Tag    string    `json:"tag"`
+	H      string    `json:"h"`
+	W      int64     `json:"w"`
+	A      int64     `json:"a"`
+	B      int64     `json:"b"`
+	Ej     int64     `json:"ej"`
+	Fn     string    `json:"fn"`
+	Base   Base      `json:"base"`
+	Pert   string    `json:"pert"`
+	Expect string    `json:"expect"`
+	N      int       `json:"n"`
+	MaxW   int64     `json:"maxw"`
+	Ops    []SeqOp   `json:"ops"`
+	AOps   []AliasOp `json:"aops"`
+	K      int       `json:"k"`
+	Sd     int       `json:"sd"`
+	Ix     int       `json:"ix"`
+	St     int       `json:"st"`
+	Hid    int       `json:"hid"`
+	J      int64     `json:"j"`
 }
 
 // Tup is the (key, seed variant, index, step) tuple of a sequence operation.
@@ -59,6 +67,15 @@ type Tup struct {
 	Sv string `json:"sv"`
 	Ix int    `json:"ix"`
 	St int    `json:"st"`
+}
+
+// AliasOp is one call of an aliasing sequence: which function, which value of the total stake (Tv) and of the stake (Wv) the shared
+// objects hold at call time, and (verify) whether the claimed seat count is right for these values or for those of the previous call.
+type AliasOp struct {
+	Fn string `json:"fn"`
+	Tv int    `json:"tv"`
+	Wv int    `json:"wv"`
+	Cj string `json:"cj"`
 }
 
 // SeqOp is one operation of a generated sequence: issue a credential for T, or present the credential issued for C with inputs T.
@@ -73,7 +90,13 @@ type world struct {
 	sks   []vrf.PrivateKey
 	pks   []vrf.PublicKey
 	tails map[Base]common.Hash // seeds found for the bases with sd = 0 (VRF output in the top 1% of the range)
+	// ALIASING: every call into the code under test passes THESE two objects for stake and total stake; they are mutated in place
+	// (SetInt64) before each call, and the values at call time are what the trace records
+	sw, sb *big.Int
 }
+
+func (wd *world) stakeObj(w int64) *big.Int { return wd.sw.SetInt64(w) }
+func (wd *world) totalObj(b int64) *big.Int { return wd.sb.SetInt64(b) }
 
 var hmax = new(big.Int).Sub(new(big.Int).Lsh(big.NewInt(1), 256), big.NewInt(1))
 
@@ -109,7 +132,7 @@ func flip(sd common.Hash, bytes ...int) common.Hash {
 }
 
 func newWorld(n int) *world {
-	w := &world{keys: fixture.Keys("c04", n), tails: map[Base]common.Hash{}}
+	w := &world{keys: fixture.Keys("c04", n), tails: map[Base]common.Hash{}, sw: new(big.Int), sb: new(big.Int)}
 	w.sks = make([]vrf.PrivateKey, n+1)
 	w.pks = make([]vrf.PublicKey, n+1)
 	for i := 1; i <= n; i++ {
@@ -168,7 +191,7 @@ func point(env *drive.Env, src, tag string, h common.Hash, w, a, b, ej int64) {
 
 // issue runs the real VrfSortition and records its result as a "choose" line and the priority with the per-seat hashes.
 func (wd *world) issue(env *drive.Env, bs Base, emit bool) (common.Hash, []byte, int64) {
-	val, proof, j := ucon.VrfSortition(wd.sks[bs.K], wd.seed(bs), uint32(bs.Ix), uint32(bs.St), uint64(bs.A), big.NewInt(bs.W), big.NewInt(bs.B))
+	val, proof, j := ucon.VrfSortition(wd.sks[bs.K], wd.seed(bs), uint32(bs.Ix), uint32(bs.St), uint64(bs.A), wd.stakeObj(bs.W), wd.totalObj(bs.B))
 	if emit {
 		tag := "issue"
 		if bs.Sd == 0 {
@@ -286,9 +309,9 @@ func (wd *world) verify(env *drive.Env, fn string, bs Base, pert, expect string)
 		var ok bool
 		var err error
 		if fn == "priority" {
-			ok, err = ucon.VrfVerifyPriority(wd.pks[k], sd, uint32(ix), uint32(st), proof, prio, uint32(jc), uint64(a), big.NewInt(w), big.NewInt(b))
+			ok, err = ucon.VrfVerifyPriority(wd.pks[k], sd, uint32(ix), uint32(st), proof, prio, uint32(jc), uint64(a), wd.stakeObj(w), wd.totalObj(b))
 		} else {
-			ok, err = ucon.VrfVerifySortition(wd.pks[k], sd, uint32(ix), uint32(st), proof, uint32(jc), uint64(a), big.NewInt(w), big.NewInt(b))
+			ok, err = ucon.VrfVerifySortition(wd.pks[k], sd, uint32(ix), uint32(st), proof, uint32(jc), uint64(a), wd.stakeObj(w), wd.totalObj(b))
 		}
 		ev["accept"] = ok && err == nil
 		if err != nil {
@@ -416,6 +439,177 @@ func (wd *world) sequence(env *drive.Env, ops []SeqOp) {
 	}
 }
 
+// alias executes an aliasing sequence: ONE big.Int for the stake and ONE for the total stake serve all calls and are mutated in
+// place between them.  The claimed seat count of a verify call is computed by VerifChoose on FRESH objects holding the values of
+// this call ("now") or of the previous call ("prev"); the monitor judges every call by the values recorded at call time.
+func (wd *world) alias(env *drive.Env, ops []AliasOp) {
+	const a = int64(30)
+	stakes := [3]int64{0, 40, 43}
+	totals := [3]int64{0, 100, 200}
+	seed := crypto.Keccak256Hash([]byte("c04-alias"), big.NewInt(int64(env.T)).Bytes(), big.NewInt(env.Seed).Bytes())
+	const k, ix, st = 1, 1, 3
+	val, proof := wd.sks[k].Evaluate(ucon.MakeM(seed, uint32(st), uint32(ix)))
+	h := common.Hash(val)
+	stake, total := new(big.Int), new(big.Int) // the aliased objects of this sequence
+	pw, pb := stakes[1], totals[1]
+	for n, op := range ops {
+		w, b := stakes[op.Wv], totals[op.Tv]
+		stake.SetInt64(w) // in place
+		total.SetInt64(b)
+		switch op.Fn {
+		case "sortition":
+			ev := map[string]interface{}{"ev": "choose", "src": "alias", "tag": "alias", "ej": -1, "pos": n}
+			guard(ev, func() {
+				hv, _, j := ucon.VrfSortition(wd.sks[k], seed, uint32(ix), uint32(st), uint64(a), stake, total)
+				ev["q"] = q(hv, w, a, b, int64(j))
+			})
+			env.Emit(ev)
+		default:
+			cw, cb := w, b
+			if op.Cj == "prev" {
+				cw, cb = pw, pb
+			}
+			jc := ucon.VerifChoose(h, big.NewInt(cw), uint64(a), big.NewInt(cb))
+			fn := "sortition"
+			if op.Fn == "verify_priority" {
+				fn = "priority"
+			}
+			ev := map[string]interface{}{"ev": "verify", "fn": fn, "pert": "alias_" + op.Cj, "expect": "recompute", "ji": jc, "pos": n}
+			guard(ev, func() {
+				var ok bool
+				var err error
+				if fn == "priority" {
+					ok, err = ucon.VrfVerifyPriority(wd.pks[k], seed, uint32(ix), uint32(st), proof, ucon.VrfComputePriority(h, uint32(jc)), uint32(jc), uint64(a), stake, total)
+				} else {
+					ok, err = ucon.VrfVerifySortition(wd.pks[k], seed, uint32(ix), uint32(st), proof, uint32(jc), uint64(a), stake, total)
+				}
+				ev["accept"] = ok && err == nil
+				if err != nil {
+					ev["err"] = err.Error()
+				}
+			})
+			ev["q"] = q(h, w, a, b, jc)
+			env.Emit(ev)
+		}
+		if stake.Int64() != w || total.Int64() != b {
+			env.Emit(map[string]interface{}{"ev": "note", "msg": "the code under test modified its big.Int inputs"})
+		}
+		pw, pb = w, b
+	}
+}
+
+// ---------------------------------------------------------------- malicious prover
+
+// maliciousEvaluate is secp256k1VRF.PrivateKey.Evaluate transcribed (same transcript, same challenge derivation, same proof layout
+// s || t || point), with hooks that change the ENCODING of what the proof carries while the challenge is recomputed consistently:
+//
+//	prefix : the first byte of the 65-byte VRF point (honest: 0x04); the point bytes feed the transcript and the output hash
+//	negY   : the point with the other y (a different point: control, must never verify)
+//	addN   : s or t written as s + N / t + N when that still fits 32 bytes (same residue, other bytes)
+//
+// With prefix = 0x04 and no other hook it is the honest algorithm (control: must verify with Evaluate's output).
+func maliciousEvaluate(d *big.Int, pubX, pubY *big.Int, m []byte, nonce []byte, prefix byte, negY bool, addN string) (out [32]byte, proof []byte, applicable bool) {
+	curve := crypto.S256()
+	cp := curve.Params()
+	r := new(big.Int).SetBytes(nonce)
+	r.Mod(r, new(big.Int).Sub(cp.N, big.NewInt(1)))
+	r.Add(r, big.NewInt(1))
+	hx, hy := secp256k1VRF.H1(m)
+	vx, vy := curve.ScalarMult(hx, hy, d.Bytes())
+	if negY {
+		vy = new(big.Int).Sub(cp.P, vy)
+	}
+	vrfData := elliptic.Marshal(curve, vx, vy)
+	vrfData[0] = prefix
+	rgx, rgy := curve.ScalarBaseMult(r.Bytes())
+	rhx, rhy := curve.ScalarMult(hx, hy, r.Bytes())
+	var b bytes.Buffer
+	b.Write(elliptic.Marshal(curve, cp.Gx, cp.Gy))
+	b.Write(elliptic.Marshal(curve, hx, hy))
+	b.Write(elliptic.Marshal(curve, pubX, pubY))
+	b.Write(vrfData)
+	b.Write(elliptic.Marshal(curve, rgx, rgy))
+	b.Write(elliptic.Marshal(curve, rhx, rhy))
+	s := secp256k1VRF.H2(b.Bytes())
+	t := new(big.Int).Sub(r, new(big.Int).Mul(s, d))
+	t.Mod(t, cp.N)
+	applicable = true
+	switch addN {
+	case "s":
+		s = new(big.Int).Add(s, cp.N)
+	case "t":
+		t = new(big.Int).Add(t, cp.N)
+	}
+	if s.BitLen() > 256 || t.BitLen() > 256 {
+		return out, nil, false // the non-reduced form does not fit the 32-byte field
+	}
+	var buf bytes.Buffer
+	buf.Write(make([]byte, 32-len(s.Bytes())))
+	buf.Write(s.Bytes())
+	buf.Write(make([]byte, 32-len(t.Bytes())))
+	buf.Write(t.Bytes())
+	buf.Write(vrfData)
+	return sha256.Sum256(vrfData), buf.Bytes(), true
+}
+
+// unique presents to the real ProofToHash, for one (key, message), the honest proof and proofs a malicious KEY HOLDER can make with
+// other encodings, and records which are accepted with which output.
+func (wd *world) unique(env *drive.Env, k, sd, ix, st int) {
+	m := ucon.MakeM(seedOf(sd), uint32(st), uint32(ix))
+	key := wd.keys[k].Priv
+	eval, honest := wd.sks[k].Evaluate(m)
+	nonce := crypto.Keccak256([]byte("c04-nonce"), m, big.NewInt(env.Seed).Bytes())
+	type tr struct {
+		Mal    string `json:"mal"`
+		Accept bool   `json:"accept"`
+		Out    string `json:"out"`
+		Err    string `json:"err,omitempty"`
+	}
+	var tries []tr
+	present := func(name string, proof []byte) {
+		t := tr{Mal: name}
+		func() {
+			defer func() {
+				if r := recover(); r != nil {
+					t.Err = "panic: " + fmt.Sprint(r)
+				}
+			}()
+			out, err := wd.pks[k].ProofToHash(m, proof)
+			t.Accept = err == nil
+			if err != nil {
+				t.Err = err.Error()
+			} else {
+				t.Out = hx(common.Hash(out))
+			}
+		}()
+		tries = append(tries, t)
+	}
+	present("evaluate", honest)
+	if _, p, ok := maliciousEvaluate(key.D, key.X, key.Y, m, nonce, 0x04, false, ""); ok {
+		present("transcribed_honest", p)
+	}
+	for _, pf := range []byte{0x00, 0x01, 0x02, 0x03, 0x05, 0x06, 0x07, 0x44, 0x84, 0xff} {
+		if _, p, ok := maliciousEvaluate(key.D, key.X, key.Y, m, nonce, pf, false, ""); ok {
+			present(fmt.Sprintf("prefix_%02x", pf), p)
+		}
+	}
+	if _, p, ok := maliciousEvaluate(key.D, key.X, key.Y, m, nonce, 0x04, true, ""); ok {
+		present("other_y", p)
+	}
+	for _, an := range []string{"s", "t"} {
+		if _, p, ok := maliciousEvaluate(key.D, key.X, key.Y, m, nonce, 0x04, false, an); ok {
+			present("nonreduced_"+an, p)
+		}
+	}
+	// encodings of the honest proof itself: prefix flipped without recomputing the challenge, trailing byte, truncated
+	hp := append([]byte{}, honest...)
+	hp[64] = 0x02
+	present("honest_prefix_flipped", hp)
+	present("honest_extra_byte", append(append([]byte{}, honest...), 0))
+	present("honest_truncated", honest[:len(honest)-1])
+	env.Emit(map[string]interface{}{"ev": "vrf_unique", "k": k, "sd": sd, "ix": ix, "st": st, "eval": hx(common.Hash(eval)), "tries": tries})
+}
+
 func run(env *drive.Env) error {
 	logging.Root().SetHandler(logging.DiscardHandler())
 	wd := newWorld(2)
@@ -443,6 +637,10 @@ func run(env *drive.Env) error {
 			wd.random(env, it.N, it.MaxW)
 		case "S":
 			wd.sequence(env, it.Ops)
+		case "A":
+			wd.alias(env, it.AOps)
+		case "U":
+			wd.unique(env, it.K, it.Sd, it.Ix, it.St)
 		case "Q":
 			h := crypto.Keccak256Hash([]byte("c04-prio"), big.NewInt(int64(it.Hid)).Bytes(), big.NewInt(env.Seed).Bytes())
 			wd.priority(env, h, it.J)
